@@ -189,6 +189,20 @@ def run(tier):
     return ctx.finish()
 
 
+# programs for generator reuse: every construct that indents its body, declarations in every statement position,
+# each with something that indents at file scope after the last function
+GEN_PROGRAMS = [
+    "struct S { int a; struct { int b; } c; }; void f(void) { if (1) { while (2) { x; } } }",
+    "void f(int a) { switch (a) { case 1: a++; int y = a * 2; y++; default: ; typedef int Q; Q q; } }",
+    "void f(int a) { switch (a) { case 1: { int z; } case 2: for (int i = 0;;) a++; case 3: case 4: break; } } struct T { int m; } t;",
+    "void f(int a) { for (;;) switch (a) case 1: while (a) do a--; while (a); L: a++; if (a) ; else if (a) a--; else { } }",
+    "struct S { int a; struct { int b; union { int c; }; } d; enum { X, Y } e; }; enum E { P, Q = 2 }; union U { int u; };",
+    "void f(void) { int a[2] = { 1, 2 }; struct P { int x; } p = { .x = 1 }; { { } } do { } while (0); }\n#pragma p\nint g;",
+    "int v = sizeof(struct { int m; }); void f(void) { L: M: ; goto L; return; } typedef struct { int q; } W;",
+    "void f(int a) { if (a) for (;;) { } else while (a) ; switch (a) { default: { int k; } } }\nint after[3];",
+]
+
+
 def reuse_lexer_generator(ctx, rnd, tier):
     from pycparser import c_lexer, c_parser, c_generator
     texts = [PALETTE[k][0] for k in sorted(PALETTE)]
@@ -222,7 +236,8 @@ def reuse_lexer_generator(ctx, rnd, tier):
             asts.append(c_parser.CParser().parse(PALETTE[k][0], "x.c"))
         except Exception:
             pass
-    asts.append(c_parser.CParser().parse("struct S { int a; struct { int b; } c; }; void f(void) { if (1) { while (2) { x; } } }", "x.c"))
+    for src in GEN_PROGRAMS:
+        asts.append(c_parser.CParser().parse(src, "x.c"))
     # any node is a legitimate argument of visit(): whole units, definitions, statements, expressions, types
     pool = []
     for a in asts:
